@@ -1,6 +1,6 @@
 ENGINES = [
     {"name": "E-ENUM", "path": "harness/runner harness/circgen harness/bitsim harness/drbg",
-     "serves_properties": ["C01"],
+     "serves_properties": ["C01","C06","C13"],
      "kind_free_text": "bounded-exhaustive enumeration (odometers over finite alphabets, simplest first) of cases run on the real code and compared with an independent reference; 16 worker processes; violations confirmed by 3 replays"},
 ]
 NOTES = ("Every check rebuilds its driver against /repo's current working tree (go build with replace => /repo). "
@@ -12,4 +12,12 @@ CHECKS = {
    technique="bounded-exhaustive enumeration of all circuits up to a gate bound x all inputs x all input permute bits, against an independent truth-table evaluator",
    text="Every circuit with <=3 inputs and <=3 gates (thorough: up to 4 inputs/3 gates and 2 inputs/4 gates) over the five gate kinds, with every wiring incl. the same wire twice, is garbled and evaluated on every input assignment for every combination of input permute bits, three AES key sizes and several DRBG seeds; every wire label (not only outputs) is compared with the truth-table value, plus structural checks (rows per gate, L0^L1=R) and the library's Compute. Small-scope exhaustive: complete below the bound, families beyond it.",
    note="Trusts the harness truth-table evaluator (bitsim, 20 lines) and the DRBG; label randomness covered for the enumerated seeds only."),
+ "C06": dict(engine="E-ENUM", level="exploration",
+   technique="bounded-exhaustive enumeration of batch sizes (every n up to a bound), choice patterns, batch histories and OT variants, oracle = chosen label / IKNP correlation",
+   text="IKNP extension in label, malicious-label and packed-bit form for every batch size 1..600 (thorough 1..1100), both values of Delta's bit 0, choice vectors all-0/all-1/alternating/every single position (small n)/LFSR, 2- and 3-batch histories on one instance; COT and ROT (semi-honest, malicious, shared re-initialisation) over an ideal base OT and over Chou-Orlandi; Chou-Orlandi and its pure helpers on four curves; RSA-1024. Oracle: the receiver holds exactly the chosen label; recv = sent xor choice*Delta bit for bit.",
+   note="Typed in-memory link instead of p2p.Conn (C11 covers the byte stream); ideal base OT for the full-size sweep; DRBG-seeded randomness."),
+ "C13": dict(engine="E-ENUM", level="exploration",
+   technique="bounded-exhaustive enumeration of type shapes x boundary values x spellings x Go value types against a reference bit packer and its inverse",
+   text="All scalar widths (quick: 19 switch widths, thorough: 1..130) x boundary alphabet x decimal/hex/binary spellings x every Go integer type that can hold the type; arrays and slices with 0..4 elements incl. short literals; compounds of 2-3 members with every (all-ones member, zero member) pair. Oracle per bit below the declared size: Parse == Set == reference packer; InputSizes == Sizes == bits needed (non-negative values); Result is the inverse, repeatable and leaves its argument unchanged.",
+   note="Reference packer is the specification (LE two's complement, declaration order, zero fill). Hex-only array literals; negative size inference recorded, not judged."),
 }
